@@ -30,6 +30,7 @@ func rulesC11(c *Ctx) {
 	ix := c.P.BuildIndex()
 	c11Round3(c)
 	c11Round4(c)
+	c11Round5(c)
 	normalK, okK := c.ConstInt("roothash/api/block", "Normal")
 	if !okK {
 		c.Undecided("C11.outcome", "anchor:block.Normal", "", "constant roothash/api/block.Normal not found")
